@@ -274,6 +274,34 @@ MIXED = [('RealNumbers', 'ComplexNumbers'), ('RealNumbers', 'Integers'), ('Empty
          ('IntervalProd', 'RealNumbers'), ('ProductSpace', 'CartesianProduct')]
 
 
+def grids_of(o, acc):
+    if isinstance(o, ip.Obj):
+        if o.cls.name == 'RectGrid':
+            acc.append(o)
+        for v in o.fields.values():
+            grids_of(v, acc)
+    elif isinstance(o, (tuple, list)):
+        for v in o:
+            grids_of(v, acc)
+    return acc
+
+
+def tie_uniform_flags(st, fr, objs):
+    """the uniformity flags are a function of the coordinates: grids with identical coordinate vectors carry identical flags"""
+    gs = []
+    for o in objs:
+        grids_of(o, gs)
+    for g1, g2 in itertools.combinations(gs, 2):
+        v1, v2 = g1.fields['_RectGrid__coord_vectors'], g2.fields['_RectGrid__coord_vectors']
+        if len(v1) != len(v2):
+            continue
+        for i, (a, b) in enumerate(zip(v1, v2)):
+            same = core.s_and(eqlib.shape_eq(a.buf.shape, b.buf.shape),
+                              core.sbool(st.reductions.reduce(fr, 'all', core.VPw('eq', (a.buf.content, b.buf.content)))))
+            f1, f2 = g1.fields['_RectGrid__is_uniform_byaxis'][i], g2.fields['_RectGrid__is_uniform_byaxis'][i]
+            st.assume(core.s_or(core.s_not(same), core.sbool(core.sc_eq(f1, f2))))
+
+
 def as_sbool(r):
     if isinstance(r, S):
         return core.sbool(r)
@@ -301,12 +329,13 @@ def unit_laws(kname, law, cfg, other=None):
                 a = b1(I, st, fr, 'a', cfg)
                 b = b2(I, st, fr, 'b', cfg)
                 out['a'], out['b'] = a, b
+                c = b1(I, st, fr, 'c', cfg) if law == 'transitive' else None
+                tie_uniform_flags(st, fr, [a, b, c])
                 if law == 'reflexive':
                     out['r'] = eq(I, fr, a, a)
                 elif law == 'symmetric':
                     out['r1'], out['r2'] = eq(I, fr, a, b), eq(I, fr, b, a)
                 elif law == 'transitive':
-                    c = b1(I, st, fr, 'c', cfg)
                     out['r1'], out['r2'], out['r3'] = eq(I, fr, a, b), eq(I, fr, b, c), eq(I, fr, a, c)
                 elif law == 'ne':
                     out['r1'] = eq(I, fr, a, b)
@@ -369,6 +398,49 @@ def unit_member(kind):
     return Unit('member/%s' % kind, run, funcs=[SPACE + 'LinearSpace.__contains__', BT + 'TensorSpace.__contains__'], config={'space': kind})
 
 
+def unit_astype(dtype_from, dtype_to, wkind):
+    """TensorSpace._astype / astype: the new space has the same shape, the requested dtype and (for floating dtypes) the very weighting
+    of the original - constant, array and exponent.  The constructor call type(self)(shape, dtype=, weighting=) is a cut (its arguments are the claim)."""
+    def run(ctx):
+        I = ctx.I
+
+        def path(st):
+            install(st)
+            fr = ip.Frame(st)
+            cfg = dict(dtype_a=dtype_from, w_a=wkind)
+            sp = B_tspace(I, st, fr, 'a', cfg)
+            made = []
+
+            def ctor(I_, fr_, self, shape, dtype=None, **kw):
+                self.fields['_TensorSpace__shape'] = tuple(shape)
+                self.fields['_TensorSpace__dtype'] = npm.as_dtype(dtype)
+                self.fields['ctor_kwargs'] = dict(kw)
+                made.append(self)
+                return None
+            st.cuts[NT + 'NumpyTensorSpace.__init__'] = ctor
+            try:
+                new = I.call(I._getattr(sp, '_astype', fr), [npm.DT(dtype_to)], {}, fr)
+            except ip.PyRaise as e:
+                return ('raise', e.exc)
+            return ('ok', (sp, new, fr))
+        info = {'from': dtype_from, 'to': dtype_to, 'weighting': wkind}
+        for st, (status, r) in ctx.explore(path):
+            if status == 'raise':
+                ctx.fail(st, 'astype evaluates without raising', 'raises %s' % lib.exc_desc(r), info)
+                continue
+            sp, new, fr = r
+            ctx.prove(st, 'astype: same class', isinstance(new, ip.Obj) and new.cls is sp.cls, info)
+            ctx.prove(st, 'astype: same shape', as_sbool(I.py_eq(new.fields['_TensorSpace__shape'], sp.fields['_TensorSpace__shape'], fr)), info)
+            ctx.prove(st, 'astype: requested dtype', new.fields['_TensorSpace__dtype'].name == dtype_to, info)
+            kw = new.fields['ctor_kwargs']
+            if npm.DT(dtype_to).kind in ('float', 'complex'):
+                ctx.prove(st, 'astype to a floating dtype: the weighting (constant / array AND exponent) of the original is handed on',
+                          kw.get('weighting') is sp.fields['_NumpyTensorSpace__weighting'] and set(kw) == {'weighting'}, info)
+            else:
+                ctx.prove(st, 'astype to a non-floating dtype: default weighting', 'weighting' not in kw, info)
+    return Unit('derived/astype/%s->%s/%s' % (dtype_from, dtype_to, wkind), run, funcs=[BT + 'TensorSpace._astype'], config={'from': dtype_from, 'to': dtype_to, 'weighting': wkind})
+
+
 def unit_canary():
     """must fail: two arrays with equal values claimed to have identical bytes (float zeros)"""
     def run(ctx):
@@ -401,5 +473,8 @@ def units(tier, seed):
         us.append(unit_laws(k1, 'hash', {}, other=k2))
     for kind in ('tensor', 'pspace', 'discr'):
         us.append(unit_member(kind))
+    for f, t in (('float64', 'float32'), ('float64', 'complex128'), ('complex128', 'float64'), ('float64', 'int64')):
+        for wk in ('const', 'array'):
+            us.append(unit_astype(f, t, wk))
     us.append(unit_canary())
     return us
